@@ -51,12 +51,67 @@ TRACK_FIELDS = {"econf_newKeyFile_with_options": ("parse_dirs", "conf_dirs", "ro
 _CACHE = {}
 
 
+_DERIVED = {}
+
+
+def summaries_for(prog):
+    """the frozen table plus rows derived for library functions the table does not know: a new internal constructor
+    (`econf_err new_parse_file(econf_file **kf, ...)` that wraps econf_newKeyFile_with_options() and sets two flags) gets the row its own
+    exit states show - per return class, what stands behind each `econf_file **` parameter: a new object, NULL, or what was there."""
+    k = id(prog)
+    if k in _DERIVED:
+        return _DERIVED[k]
+    table = dict(SUMMARIES)
+    _DERIVED[k] = table
+    for name, fn in sorted(prog.functions.items()):
+        if name in table or fn.body is None or not fn.j.get("cfg") or getattr(fn, "is_inlined_helper", False) or name in LIB_FUNCS:
+            continue
+        pp = [i for i, q in enumerate(fn.params) if (q.get("ct") or "").replace("struct ", "") in ("econf_file **",)]
+        if not pp or (fn.j.get("ret", {}) or {}).get("ct") not in ("enum econf_err", "econf_err"):
+            continue
+        try:
+            a = OwnAnalysis(prog, fn, table, FRESH_FUNCS, MAYBE_NULL, ())
+            a.run()
+        except Exception:
+            continue
+        if a.truncated or a.findings:
+            continue
+        outcomes, ok = [], True
+        for ret, st in a.exit_states:
+            const = query.returned_constant(ret) if ret is not None else None
+            if const == "ECONF_NOMEM":
+                continue
+            if const in ("ECONF_SUCCESS", 0):
+                cls = "ok"
+            elif const is not None:
+                cls = "fail"
+            else:
+                v = render(ret.children[0]) if ret is not None and ret.children else None
+                cls = "ok" if st.facts.get(v) == "Z" else "fail"
+            eff = {}
+            for i in pp:
+                obj = st.env.get("*" + fn.params[i]["name"])
+                if obj == NULL:
+                    eff[i] = "null"
+                elif obj == "caller:" + fn.params[i]["name"]:
+                    eff[i] = "keep"
+                elif obj not in (None, UNK) and st.heap.get(obj) in ("O", "C"):
+                    eff[i] = "new"
+                else:
+                    ok = False
+            if (cls, eff) not in outcomes:
+                outcomes.append((cls, eff))
+        if ok and outcomes:
+            table[name] = Summary(outcomes)
+    return table
+
+
 def analyse(prog, name, util=False):
     key = (id(prog), name, util)
     if key in _CACHE:
         return _CACHE[key]
     f = prog.fn(name, util=util)
-    a = OwnAnalysis(prog, f, SUMMARIES, FRESH_FUNCS, MAYBE_NULL, TRACK_FIELDS.get(name, ()))
+    a = OwnAnalysis(prog, f, summaries_for(prog), FRESH_FUNCS, MAYBE_NULL, TRACK_FIELDS.get(name, ()))
     a.run()
     _CACHE[key] = a
     return a
